@@ -18,7 +18,7 @@ import (
 type SchedJob struct {
 	Test     string `json:"test"`
 	Bound    int    `json:"bound"`
-	Prune    bool   `json:"prune,omitempty"`  // state-key pruning (only sound for Bound < 0)
+	Prune    bool   `json:"prune,omitempty"`  // state-key pruning: a state already expanded with no more preemptions spent is not expanded again
 	Shard    int    `json:"shard,omitempty"`  // this process explores the depth-2 subtrees with index%NShards == Shard
 	NShards  int    `json:"nshards,omitempty"`
 	Deadline int64  `json:"deadline,omitempty"` // unix seconds; exploration stops cleanly after it (Truncated)
@@ -58,7 +58,7 @@ type explorer struct {
 	t        *SchedTest
 	job      SchedJob
 	rep      *SchedReport
-	visited  map[schedKey]struct{}
+	visited  map[schedKey]int32 // state key -> fewest preemptions it was expanded with
 	frontier []schedItem // depth-2 nodes, collected first (identically in every shard), then dealt out round-robin
 	collect  bool
 	stop     bool
@@ -88,10 +88,7 @@ func ExploreJob(tests []*SchedTest, job SchedJob) *SchedReport {
 	}
 	e := &explorer{t: t, job: job, rep: &SchedReport{Job: job, Outcomes: map[string]int64{}}}
 	if job.Prune {
-		if job.Bound >= 0 {
-			schedFatal("state-key pruning is only sound for unbounded exploration")
-		}
-		e.visited = map[schedKey]struct{}{}
+		e.visited = map[schedKey]int32{}
 	}
 	start := time.Now()
 	e.collect = job.NShards > 1
@@ -176,12 +173,18 @@ func (e *explorer) explore(prefix []int32, cost int, depth int) {
 			continue
 		}
 		if e.visited != nil {
+			// the default continuation from step i on costs no preemption, so this state is reached with `cost` spent; a
+			// previous expansion with <= cost spent covered every continuation that still fits the bound
 			k := res.Keys[i]
-			if _, seen := e.visited[k]; seen {
+			kc := int32(cost)
+			if e.job.Bound < 0 {
+				kc = 0
+			}
+			if prev, seen := e.visited[k]; seen && prev <= kc {
 				e.rep.Pruned++
 				break
 			}
-			e.visited[k] = struct{}{}
+			e.visited[k] = kc
 		}
 		for alt := int32(0); alt < 64 && s.Mask>>uint(alt) != 0; alt++ {
 			if s.Mask&(1<<uint(alt)) == 0 || alt == s.Chosen {
